@@ -21,7 +21,9 @@ META = {
             'SPDX export deliberately skips purls with an empty name or version (logged by ToSPDX23); purls that packageurl-go cannot parse back (unknown type, empty name, '
             'duplicate qualifier keys, conan/swift/cran custom rules) are lost by both importers and are outside the property\'s domain (malformed stream).',
 }
-THEOREMS = ['Scalibr.Sbom.C15_spdx_general', 'Scalibr.Sbom.C15_spdx', 'Scalibr.Sbom.C15_spdx_hasPurl',
+THEOREMS = ['Scalibr.Sbom.C15_spdx_partial', 'Scalibr.Sbom.C15_cdx_partial', 'Scalibr.Sbom.C15_spdx_at', 'Scalibr.Sbom.C15_cdx_at',
+            'Scalibr.Sbom.C15_constant_norm_excluded', 'Scalibr.Sbom.C15_spdx_nonwrapper_imported', 'Scalibr.Sbom.specNorm_fields',
+            'Scalibr.Sbom.C15_spdx_general', 'Scalibr.Sbom.C15_spdx', 'Scalibr.Sbom.C15_spdx_hasPurl',
             'Scalibr.Sbom.C15_cdx_general', 'Scalibr.Sbom.C15_cdx', 'Scalibr.Sbom.C15_inventory_order',
             'Scalibr.Sbom.C15_codec_failure', 'Scalibr.Sbom.C15_codec_failure_cdx',
             'Scalibr.Sbom.C15_every_doc_has_noassertion_supplier', 'Scalibr.Sbom.C15_tagvalue_supplier_rejected',
@@ -78,13 +80,17 @@ def run(ctx):
                    'harness/cmd/c15gen (fake extractor whose ToPURL returns the stored purl; real converter, writers, extractors) + lean/Drivers/C15.lean line protocol',
                    'Lean compiler for the driver executable',
                    'packageurl-go String/FromString: supplied per case as a table (raw -> normal form) computed by the harness with the real library']
-    ctx.assumptions = ['Codec.roundtrips for tools-golang json/yaml/tagvalue and cyclonedx-go JSON/XML: ASSUMED in C15_spdx / C15_cdx, validated differentially only '
-                       '(false for tag-value always, for YAML on DEL/C1/non-characters: known findings)',
+    ctx.assumptions = ['the codec hypothesis of C15_spdx_partial / C15_cdx_partial is POINTWISE: decode (encode (toSpdx inv)) = some (toSpdx inv) for the inventory at hand (tools-golang json/yaml/tagvalue, '
+                       'cyclonedx-go JSON/XML); it is ASSUMED, validated differentially only (false for tag-value always, for YAML on DEL/C1/non-characters: known findings). The older `∀ d` form '
+                       '(Codec.roundtrips, C15_spdx / C15_cdx) is kept for the identity-codec examples only',
+                       'NormLaws (norm idempotent, version untouched, name equal up to case and _ . - folding) constrains the purl normalisation in the theorems; c15gen checks the real '
+                       'purl.FromString(String()) against it on every generated purl and exits 3 on a violation',
+                       'the SPDX wrapper package is identified structurally (DESCRIBES target, no external reference), never by name: C15_spdx_nonwrapper_imported',
                        'ops.parse "" = none (purl.FromString("") fails) in the CycloneDX theorems',
                        'uuid.New()/time.Now() are an arbitrary Env; they do not reach the observable',
                        'strings are valid UTF-8 (generator alphabet); SPDX .rdf is not an output format of the library and is excluded (f ≠ rdf)']
     ctx.rule = ('case = (stream, output format, inventory); every inventory is run in all five formats. streams: fixed (empty inventory, one package per purl type in lower and '
-                'upper case, the 13-package probe), valid, esc (JSON/YAML/XML/tag-value/URL-sensitive atoms), raw (newlines, tabs, <text>), ctl (control and non-characters), '
+                'upper case, the 13-package probe, inventories whose names collide with the exporters\' structural vocabulary: main, main-*, Package-main, SPDXRef-DOCUMENT, NOASSERTION, NONE, SCALIBR, a_b/a-b/a+b …), valid, esc (JSON/YAML/XML/tag-value/URL-sensitive atoms), raw (newlines, tabs, <text>), ctl (control and non-characters), '
                 'malformed (purls packageurl-go rejects). inventory size 0..30, 15% purl-less, 10% with CPE metadata, 1/6 duplicates. non-trivial = at least one package with a purl; '
                 'distinct = distinct case lines. compared: sorted purl multiset (model vs implementation, and implementation vs Spec), count of purl-less returned packages')
     ok, _ = ctx.lean_build(['Scalibr.Properties.C15', 'drv_c15'])
